@@ -36,12 +36,10 @@ static void structs(int n)
 	struct pt p3 = {.y = n};			/* x zero */
 	struct pt p4 = {.y = 1, .x = n};		/* out of order */
 	struct pt p5 = {.x = 1, .x = n + 2};		/* later initialiser overrides */
-	struct pt p6 = {.y = 9, n};			/* error? no: after .y nothing follows -> excess; keep positional before */
 	struct pt p7 = p2;				/* copy-initialised from another struct */
 	struct pt p8 = mkpt(n * 2, n * 3);		/* from a function result */
 	struct pt p9 = {next(), n};			/* run-time expressions */
 
-	(void)p6;
 	printf("pt: %d %d,%d %d,%d %d,%d %d,%d %d,%d %d,%d %d,%d %d,%d\n", n, p0.x, p0.y, p1.x, p1.y, p2.x, p2.y, p3.x, p3.y,
 	    p4.x, p4.y, p5.x, p5.y, p7.x, p7.y, p8.x, p8.y);
 	printf("pt9: %d %d %d\n", n, p9.x > 0, p9.y);
@@ -74,9 +72,7 @@ static void mixes(int n)
 	struct mix m3 = {n, n, n, n, n, n, 0};		/* int converted to each member type */
 	struct mix m4 = {.f = n / 2.0, .l = 1L << 40, .s = (short)(n * 40000)};
 	struct mix m5 = {0};
-	struct mix m6 = {n + 300, 70000 + n, 2.75 + n, n, 3, 4};	/* narrowing conversions of run-time values: in range for short? */
 
-	(void)m6;
 	show_mix("mix1", &m1);
 	show_mix("mix2", &m2);
 	show_mix("mix3", &m3);
